@@ -75,6 +75,16 @@ def gen_case(rng, thorough):
         ev = {"trigger!": rid, "go": 1}
         ops += [{"op": "addRule", "loc": loc, "id": rid, "rule": rule}, {"op": "enableRule", "loc": loc, "id": rid, "enable": False},
                 {"op": "event", "loc": loc, "event": dict(ev)}, {"op": "enableRule", "loc": loc, "id": rid, "enable": True}, {"op": "event", "loc": loc, "event": dict(ev)}]
+    if rng.random() < 0.25:
+        # directed: a rule that was evaluated (its parsed form is cached) disappears as a side effect -- it names a fact in deleteWith
+        # and that fact is removed -- and another rule is added under its id: the next event runs the rule that is stored now
+        loc = rng.choice(locs); rid = rng.choice(RIDS)
+        old = dict(mkwhen(rng), action=action(rng, 0), deleteWith=["anchor"])
+        new = {"when": {"pattern": {"go": "?y", "k": "?k"}}, "action": action(rng, 0)}
+        ops += [{"op": "addFact", "loc": loc, "id": "anchor", "fact": {"plain": 2}}, {"op": "addRule", "loc": loc, "id": rid, "rule": old},
+                {"op": "event", "loc": loc, "event": {"go": 1, "k": 1}}, {"op": "remFact", "loc": loc, "id": "anchor"},
+                {"op": "event", "loc": loc, "event": {"go": 1, "k": 1}}, {"op": "addRule", "loc": loc, "id": rid, "rule": new},
+                {"op": "event", "loc": loc, "event": {"go": 1, "k": 1}}, {"op": "event", "loc": loc, "event": {"go": 1}}]
     if rng.random() < 0.3:
         # a disabled location: no rule fires and every operation reports it
         ops.append({"op": "addFact", "loc": "a", "id": "", "fact": {"!enabled": "no"}})
@@ -111,6 +121,7 @@ def main():
                 dis = True
     for c in cases[:2]:
         ck.sample({"state": c["state"], "locs": c["locs"], "ops": c["ops"][:8]})
+    remrule_fault_phase(ck, lr)
     lr.finish_cov("lifecycle scripts over 3 rule ids in a location with or without a parent: add / overwrite (by a rule, by a plain fact) / remove / disable / enable (locally, for an inherited rule) / "
                   "remove the flag fact / reload / clear, interleaved with events, finally (30%) the location is disabled and every operation is tried; both states; dispatch is compared with the "
                   "specification 'stored, unexpired, non-scheduled, not disabled in the event's location, when matches'")
